@@ -191,6 +191,39 @@ def _key_tables(c, prog):
     c.floor("R1.key-field:Output", 18, "8 standard + 10 proprietary")
     _hash_helper(c, prog)
     _global_table(c, prog)
+    _proprietary_prefix(c, prog)
+
+
+def _proprietary_prefix(c, prog):
+    """every reader arm that interprets a proprietary subtype as an Elements field is guarded by the
+    `pset` prefix test (ProprietaryKey::is_pset_key), otherwise foreign proprietary pairs are swallowed"""
+    fns = ["<%s as pset::map::Map>::insert_pair" % o for o in MAPS.values()] + ["<%s as encode::Decodable>::consensus_decode" % MAPS["Global"]]
+    n = 0
+    for fnp in fns:
+        f = prog.fn(fnp)
+        b = f.body
+        g = Guards(b)
+        seen = {}
+        for bi in sorted(b.reachable()):
+            has_effect = any(s["k"] == "assign" and (s["pl"]["p"] or b.local_name(s["pl"]["l"])) for s in b.stmts(bi)) or \
+                (b.term(bi)["k"] == "call" and re.search(r"::(push|insert)$", callee_name(b.term(bi)) or "") is not None)
+            if not has_effect:
+                continue
+            cd = cond_desc(b, g.conds(bi))
+            pins = [(d, l) for d, l in cd if ".subtype" in d and (re.match(r"^=\d+$", l) or (" Eq " in d and l == "true"))]
+            if not pins:
+                continue
+            m = re.search(r"(\d+)\)?$", pins[-1][0]) if " Eq " in pins[-1][0] else re.match(r"^=(\d+)$", pins[-1][1])
+            sub = m.group(1) if m else "?"
+            guarded = any("is_pset_key(" in d and l == "true" for d, l in cd)
+            key = "%s subtype %s" % (fnp.split(" as ")[0].lstrip("<").split("::")[-1], sub)
+            seen[key] = seen.get(key, True) and guarded
+        for key, ok in sorted(seen.items()):
+            n += 1
+            c.inst("R1.proprietary-prefix", key, ok,
+                   "a proprietary pair with this subtype is interpreted as an Elements field without checking the `pset` prefix (is_pset_key): "
+                   "foreign proprietary pairs with the same subtype (e.g. ELIP-100 metadata) are rejected or swallowed instead of round-tripping", f.where(), fnp)
+    c.floor("R1.proprietary-prefix", 34, "22 input + 10 output + 2 global subtypes")
 
 
 def _hash_helper(c, prog):
